@@ -534,7 +534,7 @@ func init() {
 					if e.t.lo >= '0' && e.t.hi <= '9' {
 						rep[i] = '0'
 					} else {
-						inconclusive("regexp.MatchString on non-digit symbolic byte")
+						rep[i] = byte(fr.concretize(e))
 					}
 				}
 			}
@@ -707,10 +707,11 @@ func (fr *frame) asciiPredicate(r symv, pred func(c uint64) bool) value {
 func (fr *frame) parseIntSym(s *symString, base, bits int, fn string, kind types.BasicKind) value {
 	in := fr.i
 	st := in.st
-	if base != 10 && base != 0 {
-		inconclusive("%s of symbolic text in base %d", fn, base)
+	var t *Term
+	ok := false
+	if base == 10 || base == 0 {
+		t, ok = fr.parseDecimal(s.b)
 	}
-	t, ok := fr.parseDecimal(s.b)
 	if !ok {
 		// not a pure numeral: if some concrete byte is a non-digit the parse fails
 		for i, e := range s.b {
@@ -720,7 +721,29 @@ func (fr *frame) parseIntSym(s *symString, base, bits int, fn string, kind types
 				}
 			}
 		}
-		inconclusive("%s of mixed symbolic text %s", fn, s.debug())
+		// few symbolic bytes among concrete text: enumerate their values and
+		// parse natively
+		cs := fr.concretizeString(s).(string)
+		switch kind {
+		case types.Uint64:
+			n, err := strconv.ParseUint(cs, base, bits)
+			if err != nil {
+				return tuple{n, in.mkError("strconv." + fn + ": parsing " + strconv.Quote(cs) + ": " + errTail(err))}
+			}
+			return tuple{n, nilError()}
+		case types.Int:
+			n, err := strconv.ParseInt(cs, base, 0)
+			if err != nil {
+				return tuple{int(n), in.mkError("strconv." + fn + ": parsing " + strconv.Quote(cs) + ": " + errTail(err))}
+			}
+			return tuple{int(n), nilError()}
+		default:
+			n, err := strconv.ParseInt(cs, base, bits)
+			if err != nil {
+				return tuple{n, in.mkError("strconv." + fn + ": parsing " + strconv.Quote(cs) + ": " + errTail(err))}
+			}
+			return tuple{n, nilError()}
+		}
 	}
 	if bits == 0 {
 		bits = 64
@@ -832,4 +855,42 @@ func init() {
 		}
 		return nil, true
 	}
+}
+
+// ---- runtime call-stack introspection (used by error wrappers): one fake frame ----
+
+func init() {
+	I := intrinsics
+	I["runtime.Callers"] = func(fr *frame, args []value) (value, bool) {
+		pcs := args[1].([]value)
+		if len(pcs) == 0 {
+			return 0, true
+		}
+		fr.i.undo = append(fr.i.undo, undoRec{addr: &pcs[0], old: pcs[0]})
+		pcs[0] = uintptr(1)
+		return 1, true
+	}
+	I["runtime.CallersFrames"] = func(fr *frame, args []value) (value, bool) {
+		cell := new(value)
+		*cell = &native{kind: "frames"}
+		return cell, true
+	}
+	I["(*runtime.Frames).Next"] = func(fr *frame, args []value) (value, bool) {
+		rt := fr.i.prog.ImportedPackage("runtime")
+		ft := rt.Type("Frame").Object().Type()
+		fv := zero(ft).(structure)
+		st := ft.Underlying().(*types.Struct)
+		for i := 0; i < st.NumFields(); i++ {
+			switch st.Field(i).Name() {
+			case "Function":
+				fv[i] = "github.com/HobbyOSs/gosk/unknown.caller"
+			case "File":
+				fv[i] = "/unknown/caller.go"
+			case "Line":
+				fv[i] = 1
+			}
+		}
+		return tuple{fv, false}, true
+	}
+	I["runtime.FuncForPC"] = func(fr *frame, args []value) (value, bool) { return (*value)(nil), true }
 }
